@@ -358,6 +358,89 @@ Proof.
   destruct found; repeat split; reflexivity.
 Qed.
 
+(* ---- slashing preserves the structural invariant (fractions below 1) ---- *)
+Lemma slash_lock_linv : forall cfg st id d v f, linv cfg st -> 0 <= f < P18 -> linv cfg (slash_lock st id d v f).
+Proof.
+  intros cfg st id d v f I Hf. unfold slash_lock.
+  destruct (s_locks st id) as [l|] eqn:Hl; [|assumption].
+  destruct (negb (l_denom l =? d)); [assumption|]. destruct (negb (existsb _ (s_synths st id))); [assumption|].
+  set (s := d_truncate_int (d_mul (d_from_int (l_amt l)) f)).
+  destruct ((s <=? 0) || (l_amt l <? s)) eqn:Es; [assumption|]. apply orb_false_iff in Es. destruct Es as [E1 E2].
+  apply Z.leb_gt in E1. apply Z.ltb_ge in E2.
+  pose proof (L_lock_wf _ _ I _ _ Hl) as [Wa [Wd We]].
+  assert (Hlt : s < l_amt l).
+  { (* trunc(round(amt * P18 * f / P18)) = trunc(amt * f) <= amt * f / P18 < amt *)
+    unfold s, d_truncate_int, d_mul, d_from_int. pose proof P18_pos as HP.
+    replace (l_amt l * P18 * f) with ((l_amt l * f) * P18) by ring.
+    fold (rnd (l_amt l * f * P18)). rewrite rnd_exact by nia.
+    apply Z.quot_lt_upper_bound; nia. }
+  destruct (synth_by_lock_spec cfg st id _ I eq_refl) as [[Hs Er]|[y [Hs Er]]]; rewrite Er; [assumption|].
+  pose proof (L_marker _ _ I id) as M. unfold marker in M. rewrite Hs in M. destruct M as [_ M].
+  apply (put_lock_linv cfg st id l (mkLock (l_owner l) (l_denom l) (l_amt l - s) (l_dur l) (l_end l))); cbn; try assumption; try reflexivity; try lia.
+  - rewrite Hs. destruct (y_kind y).
+    + destruct M as [_ [_ [l0 [E0 [_ [E3 _]]]]]]. congruence.
+    + destruct M as [_ [_ M3]]. destruct (M3 _ Hl) as [M4 _]. assumption.
+  - intros d0 v0. unfold delta_for. destruct (y_kind y).
+    + destruct M as [Hc _]. rewrite Hc. destruct (pair_eqb (y_denom y, y_val y) (d0, v0)) eqn:E.
+      * apply pair_eqb_eq in E. injection E as <- <-. rewrite upd3_same. lia.
+      * apply pair_eqb_neq in E. rewrite upd3_other_key by congruence. lia.
+    + destruct M as [Hc _]. rewrite Hc. rewrite upd3_other_kind by discriminate. lia.
+Qed.
+
+Lemma slash_account_linv : forall cfg st k f, linv cfg st -> 0 <= f < P18 -> linv cfg (slash_account st k f).
+Proof.
+  intros cfg st k f I Hf. unfold slash_account. destruct (negb (mem_pair k (s_accs st))); [assumption|].
+  generalize (ids_upto (s_last st)). intros ids. revert st I. induction ids as [|id r IH]; intros st I; cbn [fold_left]; [assumption|].
+  apply IH. apply slash_lock_linv; assumption.
+Qed.
+
+(* effective fraction handed to the superfluid hook: below 1 when the slash fraction is at most 1/2 *)
+Lemma eff_fraction_bound : forall T f, 0 < T -> 0 <= 2 * f <= P18 ->
+  let power := Z.quot T power_reduction in
+  let slash_amount := d_truncate_int (d_mul (d_from_int (power * power_reduction)) f) in
+  let burn := Z.max 0 (Z.min slash_amount T) in
+  0 <= Z.min P18 (d_quo_round_up (d_from_int burn) (d_from_int T)) < P18.
+Proof.
+  intros T f HT Hf power slash_amount burn. pose proof P18_pos as HP.
+  assert (Hpow : 0 <= power * power_reduction <= T).
+  { unfold power, power_reduction. pose proof (Z.quot_pos T 1000000 ltac:(lia) ltac:(lia)).
+    pose proof (Z.mul_quot_le T 1000000 ltac:(lia) ltac:(lia)). lia. }
+  assert (Hsa : 0 <= slash_amount /\ 2 * slash_amount <= T).
+  { unfold slash_amount, d_truncate_int, d_mul, d_from_int.
+    replace (power * power_reduction * P18 * f) with ((power * power_reduction * f) * P18) by ring.
+    fold (rnd (power * power_reduction * f * P18)). rewrite rnd_exact by nia.
+    set (x := power * power_reduction * f). assert (0 <= x) by (unfold x; nia).
+    pose proof (Z.quot_pos x P18 ltac:(lia) ltac:(lia)). pose proof (Z.mul_quot_le x P18 ltac:(lia) ltac:(lia)).
+    split; [assumption|]. assert (2 * x <= T * P18) by (unfold x; nia). nia. }
+  assert (Hb : 0 <= burn /\ 2 * burn <= T) by (unfold burn; lia).
+  unfold d_quo_round_up, d_from_int. clearbody burn. clear slash_amount Hsa power Hpow.
+  set (m := burn * P18 * P18). set (dv := T * P18).
+  assert (Hm : 0 <= m) by (unfold m; nia). assert (Hdv : 0 < dv) by (unfold dv; nia).
+  pose proof (Z.quot_rem' m dv) as QR. pose proof (Z.rem_bound_pos m dv Hm Hdv) as RB.
+  pose proof (Z.quot_pos m dv Hm Hdv) as QP.
+  set (q := Z.quot m dv) in *. set (rr := Z.rem m dv) in *.
+  assert (Hq : 2 * q <= P18).
+  { assert (2 * m <= dv * P18) by (unfold m, dv; nia). nia. }
+  assert (HP2 : 4 <= P18) by (vm_compute; discriminate).
+  destruct (((0 <? rr) && _) || _); lia.
+Qed.
+
+Lemma slash_linv : forall cfg st order v f st', linv cfg st -> 0 <= 2 * f <= P18 -> slash st order v f = Ok st' -> linv cfg st'.
+Proof.
+  intros cfg st order v f st' I Hf H. unfold slash in H.
+  destruct (s_vals st v) as [val|]; [|injection H as <-; assumption].
+  destruct (f <? 0); [discriminate|].
+  match type of H with (if ?c then _ else _) = _ => destruct c; [injection H as <-; assumption|] end.
+  injection H as <-.
+  match goal with |- linv cfg (set_bank (set_vals ?s _) _ _ _) => assert (I1 : linv cfg s); [|apply (linv_ext cfg s); [reflexivity|assumption]] end.
+  destruct (Z.ltb_spec 0 (v_tokens val)) as [HT|HT]; [|assumption].
+  pose proof (eff_fraction_bound (v_tokens val) f HT Hf) as He. cbv zeta in He.
+  match goal with |- linv cfg (if ?e =? 0 then _ else _) => destruct (e =? 0); [assumption|] end.
+  match goal with |- linv cfg (fold_left _ ?l st) => generalize l end. intros accs. revert st I.
+  induction accs as [|k r IH]; intros st I; cbn [fold_left]; [assumption|]. apply IH.
+  apply slash_account_linv; assumption.
+Qed.
+
 (* ---- every operation preserves the invariant ---- *)
 Theorem step_linv : forall cfg st o st' nid,
   wf_cfg cfg -> linv cfg st -> step cfg st o = Ok (st', nid) -> linv cfg st'.
